@@ -366,7 +366,15 @@ func (r *Runner) runOne(c *Case, f func(c *Case)) {
 	f(c)
 }
 
+// Close must be deferred directly by the test function: when the test is unwinding from a panic
+// (e.g. synctest's deadlock panic re-raised by runOne) the journal must NOT be marked done, so
+// that the driver attributes the death to the journalled case.
 func (r *Runner) Close() {
+	if p := recover(); p != nil {
+		r.journal.Close()
+		r.results.Close()
+		panic(p)
+	}
 	fmt.Fprintf(r.journal, "done\n")
 	r.journal.Close()
 	r.results.Close()
